@@ -29,6 +29,8 @@ type c2Case struct {
 	Only int `json:"only"`
 	// Force: the runs into which faults are injected use Force (nothing is trusted as cached; previous output must survive all the same)
 	Force bool `json:"force,omitempty"`
+	// Quiet: one more generator ("ab", registered first) is enabled everywhere and neither renders nor registers callbacks
+	Quiet bool `json:"quiet,omitempty"`
 }
 
 var c2ErrorKinds = []string{
@@ -36,6 +38,8 @@ var c2ErrorKinds = []string{
 	"syntax-lateimport", "syntax-closebrace", "syntax-stmt", "skip", "ignore", "wrapskip", "wrapignore", "panic-free-nothing",
 	// a real error while other types of the same package signal ErrIgnore; unparseable text behind a //line directive
 	"error+ignore-elsewhere", "wraperror+wrapignore-elsewhere", "syntax-linedirective", "syntax-linecomment", "syntax-after-a-very-long-line",
+	// the generator's whole output comes from Defer callbacks (GenerateType renders nothing anywhere) and one of them fails
+	"defererror-deferonly",
 }
 
 var c2Syntax = map[string]string{
@@ -60,6 +64,7 @@ func genC02(t *rapid.T) c2Case {
 	o := modOpts{gens: []string{"zzz"}, minPkgs: 2, maxPkgs: 4, locals: false, tagDensity: 9, pkgTagBias: 9, maxDecls: 3, imports: true}
 	c := c2Case{ModCase: genMod(t, o), Gens: names, Only: -1}
 	c.Force = rapid.IntRange(0, 2).Draw(t, "force") == 0
+	c.Quiet = rapid.IntRange(0, 2).Draw(t, "quiet") == 0
 	// the first package imports all others so that one entry covers the module
 	first := &c.Mod.Pkgs[0]
 	if first.Name == "main" || true {
@@ -95,6 +100,9 @@ func (c *c2Case) processedDirs() []string {
 
 func (c *c2Case) baseScripts() []*script.Script {
 	var out []*script.Script
+	if c.Quiet {
+		out = append(out, &script.Script{Name: "ab", Mode: "fixed", Alias: true})
+	}
 	for _, g := range c.Gens {
 		out = append(out, &script.Script{Name: g, Mode: "fixed", Alias: true,
 			Default: script.Action{
@@ -164,6 +172,9 @@ func (c *c2Case) faultScripts(pt c2Point) []*script.Script {
 			act.Render = append(append([]script.Piece{}, act.Render...), script.Piece{Kind: "block", Text: c2Syntax[pt.Kind]})
 		case pt.Kind == "defererror":
 			act.Defers = []script.DeferAction{{Err: "error"}}
+		case pt.Kind == "defererror-deferonly":
+			act.Render = nil
+			act.Defers = []script.DeferAction{{Render: []script.Piece{{Kind: "block", Text: "\nvar _$G_$T_deferred = 0\n"}}}, {Err: "error"}}
 		case pt.Kind == "defererror-with-followup":
 			// an earlier callback queues a follow-up (which succeeds) before a later callback fails
 			ok := []script.Piece{{Kind: "block", Text: "\nvar _$G_$T_followup = 0\n"}}
@@ -216,6 +227,16 @@ func (c *c2Case) faultScripts(pt c2Point) []*script.Script {
 			s.PerType = map[string]script.Action{}
 		}
 		s.PerType[pt.Pkg+"."+pt.Type] = act
+		if pt.Kind == "defererror-deferonly" {
+			s.Default.Render = nil
+			if s.OnAlias != nil {
+				s.OnAlias = &script.Action{}
+			}
+			for k, a := range s.PerType {
+				a.Render = nil
+				s.PerType[k] = a
+			}
+		}
 	}
 	return ss
 }
@@ -340,7 +361,9 @@ func oracleC02(c c2Case) error {
 					return fmt.Errorf("%s: error %q names neither generator+package nor a syntax position in %s", where, res.Err, file)
 				}
 			} else {
-				if !strings.Contains(res.Err, pt.Gen) || !strings.Contains(res.Err, pt.Pkg) {
+				// the generator's name as a word of its own, outside the package path and the harness's own error text
+				rest := strings.ReplaceAll(strings.ReplaceAll(res.Err, pt.Pkg+"."+pt.Type, ""), pt.Pkg, "")
+				if !regexp.MustCompile(`(^|[^A-Za-z0-9_])`+regexp.QuoteMeta(pt.Gen)+`([^A-Za-z0-9_]|$)`).MatchString(rest) || !strings.Contains(res.Err, pt.Pkg) {
 					return fmt.Errorf("%s: error %q does not name the generator and the package", where, res.Err)
 				}
 			}
